@@ -13,17 +13,23 @@ static CRASH_CB: RwLock<Option<Callback>> = RwLock::new(None);
 
 /// Register (or clear) the callback invoked by [`yield_point`].
 pub fn set_yield_callback(cb: Option<Callback>) {
-    *YIELD_CB.write().unwrap_or_else(std::sync::PoisonError::into_inner) = cb;
+    *YIELD_CB
+        .write()
+        .unwrap_or_else(std::sync::PoisonError::into_inner) = cb;
 }
 
 /// Register (or clear) the callback invoked by [`crash_point`].
 pub fn set_crash_callback(cb: Option<Callback>) {
-    *CRASH_CB.write().unwrap_or_else(std::sync::PoisonError::into_inner) = cb;
+    *CRASH_CB
+        .write()
+        .unwrap_or_else(std::sync::PoisonError::into_inner) = cb;
 }
 
 /// A point where a harness-owned scheduler may switch threads.
 pub fn yield_point(site: &'static str) {
-    let cb = *YIELD_CB.read().unwrap_or_else(std::sync::PoisonError::into_inner);
+    let cb = *YIELD_CB
+        .read()
+        .unwrap_or_else(std::sync::PoisonError::into_inner);
     if let Some(cb) = cb {
         cb(site);
     }
@@ -31,7 +37,9 @@ pub fn yield_point(site: &'static str) {
 
 /// A point where a harness may simulate a process crash.
 pub fn crash_point(site: &'static str) {
-    let cb = *CRASH_CB.read().unwrap_or_else(std::sync::PoisonError::into_inner);
+    let cb = *CRASH_CB
+        .read()
+        .unwrap_or_else(std::sync::PoisonError::into_inner);
     if let Some(cb) = cb {
         cb(site);
     }
